@@ -105,6 +105,10 @@ func sAdd(a, b string) string {
 	}
 	return "(+ " + a + " " + b + ")"
 }
+// sIdx: position of element i of a slice with offset off in its backing array. An uninterpreted function with
+// the axiom idx(o,i) = o+i, so that quantified facts about x[i] have an arithmetic-free trigger.
+func sIdx(off, i string) string { return "(idx " + off + " " + i + ")" }
+
 func sSub(a, b string) string {
 	if b == "0" {
 		return a
@@ -349,6 +353,7 @@ func preludeText() string {
 	sb.WriteString("(define-fun tmod ((a Int) (b Int)) Int (- a (* b (tdiv a b))))\n")
 	sb.WriteString("(declare-fun bor (Int Int) Int)\n(declare-fun band (Int Int) Int)\n(declare-fun bxor (Int Int) Int)\n(declare-fun bandnot (Int Int) Int)\n(declare-fun bshl (Int Int) Int)\n(declare-fun bshr (Int Int) Int)\n")
 	sb.WriteString("(declare-fun typeof (Int) Int)\n")
+	sb.WriteString("(declare-fun idx (Int Int) Int)\n(assert (forall ((o Int) (i Int)) (! (= (idx o i) (+ o i)) :pattern ((idx o i)))))\n")
 	return sb.String()
 }
 
